@@ -2,6 +2,7 @@ package props
 
 import (
 	"fmt"
+	"reflect"
 	"math"
 	"math/big"
 	"strings"
@@ -231,6 +232,47 @@ func runC09(c *core.Ctx) {
 						c.Violate("andor-nested|"+place+"|"+resClass(res), "and/or must treat an operand reached through a property or index, whatever its Go representation, as its value: exactly nil and false are false",
 							map[string]any{"condition": cond, "operand": o.name, "expected": want, "observed": res.Brief()})
 					}
+				}
+			}
+		}
+	}
+	// ---- reflexivity everywhere: a value equals itself however it is reached and wrapped ------------------------------------
+	for ui, u := range gen.PlainDataUniverse() {
+		if !c.Mine(ui) || !c.Begin("reflexive:"+u.Name) {
+			continue
+		}
+		for _, wrap := range []string{"plain", "DropV", "*DropP"} {
+			if wrap != "plain" {
+				// one Drop around plain data: Drops of Drops and Drops of pointers are not what the statement speaks of
+				g := u.Go
+				if _, isDrop := g.(interface{ ToLiquid() any }); isDrop || g != nil && reflect.ValueOf(g).Kind() == reflect.Ptr {
+					continue
+				}
+			}
+			mk := func() any {
+				v := gen.PlainDataUniverse()[ui].Go
+				switch wrap {
+				case "DropV":
+					return gen.DropV{X: v}
+				case "*DropP":
+					return &gen.DropP{X: v}
+				}
+				return v
+			}
+			v := mk()
+			b := map[string]any{"v": v, "h": map[string]any{"v": v}, "l": []any{v}, "w": mk()}
+			for _, src := range []string{"{% if v == v %}T{% else %}F{% endif %}", "{% if h.v == h.v %}T{% else %}F{% endif %}", "{% if l[0] == h.v %}T{% else %}F{% endif %}", "{% if v != v %}F{% else %}T{% endif %}",
+				"{% if h.v == v %}T{% else %}F{% endif %}", "{% if l contains v %}T{% else %}F{% endif %}", "{% if l contains h.v %}T{% else %}F{% endif %}", "{% case h.v %}{% when v %}T{% else %}F{% endcase %}"} {
+				if strings.Contains(src, "contains") && (u.Name == "dropdrop" || u.Go != nil && reflect.ValueOf(u.Go).Kind() == reflect.Ptr) {
+					continue // what == does with a pointer (or a Drop of a Drop) that is an ELEMENT of an array is not stated
+				}
+				res := core.Run(e, src, b)
+				c.Eval(1)
+				c.Obs("reflexivity_cases", 1)
+				c.Distinct("refl", u.Name, wrap, src)
+				if !res.OK() || res.Out != "T" {
+					c.Violate("reflexive|"+wrap+"|"+kindOf(u), "== is reflexive: a value equals itself, wherever it is reached from and whatever Drops wrap it (and an array contains its own element)",
+						map[string]any{"value": gen.Describe(v), "source": src, "observed": res.Brief()})
 				}
 			}
 		}
